@@ -243,6 +243,14 @@ func runParse(c call, parse func(buf []byte, args ...any) (any, error), read fun
 			v, err = parse(in, ojg.NumConvFloat64)
 		case "numstr":
 			v, err = parse(in, ojg.NumConvString)
+		case "reuse":
+			// the subject switched the instance's Reuse field on for this call only: the maps of this
+			// result may be recycled by a later Reuse call (documented), those of all other calls may not
+			v, err = parse(in)
+			return outcome{res: fmt.Sprintf("%s|%v|%v", showAny(v), err, docs), retained: v, input: in, waive: true}
+		case "reusereader":
+			v, err = read(bytes.NewReader(in))
+			return outcome{res: fmt.Sprintf("%s|%v|%v", showAny(v), err, docs), retained: v, input: in, waive: true}
 		default:
 			v, err = parse(in)
 		}
@@ -457,9 +465,10 @@ func subjects() []*subject {
 		})
 	}
 	return []*subject{
-		{name: "oj.Parser", cover: "subject:oj.Parser", fresh: func() any { return &oj.Parser{} }, calls: parseCalls(jsonSrcs, append(append([]string{}, parseModes...), "unmarshal", "unmarshalT")),
+		{name: "oj.Parser", cover: "subject:oj.Parser", fresh: func() any { return &oj.Parser{} }, calls: parseCalls(jsonSrcs, append(append([]string{}, parseModes...), "unmarshal", "unmarshalT", "reuse", "reusereader")),
 			run: func(i any, c call) outcome {
 				p := i.(*oj.Parser)
+				p.Reuse = strings.HasPrefix(c.Mode, "reuse")
 				return runParse(c, p.Parse, func(r jsongenReader, a ...any) (any, error) { return p.ParseReader(r, a...) }, simpleCB, simpleChan,
 					func(b []byte, vp any) error { return p.Unmarshal(b, vp) })
 			}},
@@ -468,9 +477,10 @@ func subjects() []*subject {
 				p := i.(*oj.Parser)
 				return runParse(c, p.Parse, func(r jsongenReader, a ...any) (any, error) { return p.ParseReader(r, a...) }, simpleCB, simpleChan)
 			}},
-		{name: "gen.Parser", cover: "subject:gen.Parser", fresh: func() any { return &gen.Parser{} }, calls: parseCalls(jsonSrcs, []string{"", "cbbool", "chan", "reader", "reader1", "readererr", "cbpanic", "cbstop"}),
+		{name: "gen.Parser", cover: "subject:gen.Parser", fresh: func() any { return &gen.Parser{} }, calls: parseCalls(jsonSrcs, []string{"", "cbbool", "chan", "reader", "reader1", "readererr", "cbpanic", "cbstop", "reuse", "reusereader"}),
 			run: func(i any, c call) outcome {
 				p := i.(*gen.Parser)
+				p.Reuse = strings.HasPrefix(c.Mode, "reuse")
 				return runParse(c, func(b []byte, a ...any) (any, error) { n, e := p.Parse(b, a...); return n, e },
 					func(r jsongenReader, a ...any) (any, error) { n, e := p.ParseReader(r, a...); return n, e }, genCB, genChan)
 			}},
